@@ -63,3 +63,15 @@ package stdlib_contracts
 //@ func ReadFull   trusted
 //@   modifies elems(buf)
 //@   ensures result1 == nil ==> result0 == len(buf)
+
+//@ package fmt
+
+//@ func Errorf   trusted
+//@   modifies nothing
+//@   ensures result != nil
+
+//@ package errors
+
+//@ func New   trusted
+//@   modifies nothing
+//@   ensures result != nil
